@@ -36,6 +36,9 @@ BUILT = {
  'C11': dict(technique='bounded exhaustive enumeration of path strings (every option x every qualifier form per step, systematically broken variants with <= 2 defects, all short strings over the path alphabet) against a reference path resolver; each path replayed on the real library through five accessors',
              text='six trees (single, multi, titled, nested depth 3, case-insensitive, digit names; titles with blanks, quotes, separators, backslashes): every path form and every variant with one or two injected defects, and all strings up to length 5 (6) over {a m | = quote backslash 0 1}; cfg_getopt / cfg_getsec must return exactly the object reached by stepwise navigation (pointer identity via the stepwise address), typed getter and size agree, the by-path setter and cfg_rmsec change exactly that target, unresolvable paths fail, terminate and change nothing.',
              note='trusted: mc/refpath.py; UNSPEC forms (duplicated inner separators, non-decimal indices, empty quoted title, text glued to a closing quote) are executed but not compared', ref='5/C11'),
+ 'C12': dict(technique='bounded exhaustive enumeration (base text x insertion point at every depth x unknown item from a recursive generator, singly and in pairs, plus a nesting-depth family) with a metamorphic oracle checked against the reference parser; every text replayed on the real library with and without the flag',
+             text='9 accepted base texts on a nested schema x every item boundary (before each item, end of each section body, end of text) x ~1700 well-formed unknown items (assignment, list, append, call, plain/titled sections nested to depth 2, 3 thorough; inner names include declared names with unconvertible values) and pairs; unknown sections nested 1..10, 10^2..10^4 (10^5 thorough) deep. With the flag: same return code and dump as the base text, no diagnostic; without: rejected with a diagnostic.',
+             note='trusted: RefParser for the base texts and for the well-formedness of generated items (self-check at start)', ref='5/C12'),
 }
 
 checks = []
